@@ -24,6 +24,9 @@ ASSUMPTIONS = [
 ]
 
 
+LAST_FAULT = [None, None]     # (final op, exception plain Python raised) of the last reference deletion
+
+
 def ref_delete(root, steps):
     """-> 'ok' | 'missing-parent' | 'missing-final' | 'fault'; performs the deletion on root when ok"""
     cur = root
@@ -33,8 +36,14 @@ def ref_delete(root, steps):
         except MR.AccessFail:
             return 'missing-parent'
     op, arg = steps[-1]
+    LAST_FAULT[:] = [op, None]
     try:
         MR.delete_op(cur, op, arg)
+    except Exception as e:
+        LAST_FAULT[1] = e
+    try:
+        if LAST_FAULT[1] is not None:
+            raise LAST_FAULT[1]
     except (KeyError, IndexError, AttributeError) as e:
         if isinstance(cur, (tuple, MR.BadObj)) or (isinstance(cur, MR.RoObj) and arg == 'ro'):
             return 'fault'
@@ -98,6 +107,14 @@ def run_case(case):
     else:   # fault
         if got[0] != 'raised' and not ignore:
             return R({'expected': 'an exception (the deletion cannot be performed)', 'observed': 'returned %r' % (res,), **where}, oc)
+        # ignore_missing only covers MISSING elements.  A present element that cannot be deleted may pass for "missing" only where plain
+        # Python raises the same exception class for both (AttributeError for T.attr, KeyError / IndexError for T[..]); handlers reached
+        # through path strings are given the benefit of the doubt (any exception of a registered handler counts as "cannot delete")
+        fop, fexc = LAST_FAULT
+        ambiguous = fop == 'P' or (fop == '.' and isinstance(fexc, AttributeError)) or (fop == '[' and isinstance(fexc, (KeyError, IndexError)))
+        if got[0] != 'raised' and ignore and not ambiguous:
+            return R({'expected': 'an exception: the element is present and plain Python raises %r, which ignore_missing does not cover' % (fexc,),
+                      'observed': 'returned normally, element still in place', **where}, oc)
     return R(None, oc, steps=len(steps), tags={spelling, form} | set(kinds))
 
 
